@@ -431,6 +431,7 @@ const critAttrKey = "io.verif.example/criticalAttr"
 
 // critical attribute keys: an unrelated one and ones that merely start like the plugin headers
 var critAttrKeys = []string{critAttrKey, "io.cncf.notary.verificationPluginConfig", "io.cncf.notary.verificationPlugin.extra", "io.cncf.notary.verificationPluginMinVersionX"}
+
 const pluginName = "verifplug"
 
 func caStoreType(s signature.SigningScheme) truststore.Type {
